@@ -80,21 +80,24 @@ CLAIMS.update({
     'C04': dict(
         text='prepare and enforce of both username profiles on strings over a 44-character alphabet closed under every pipeline operation '
              '(fullwidth, combining marks, singleton, RTL, Arabic-Indic digit, emoji ...), against the RFC 8265 pipeline written over character '
-             'arrays; rule-binding harness pins NFC/width/case/directionality bindings. Quick: 1 character; thorough: 2.',
+             'arrays; rule-binding harness pins NFC/width/case/directionality bindings. Quick: symbolic prepare on 1 character plus eight constant '
+             'multi-character witnesses through enforce of both profiles (order of the steps); thorough: symbolic enforce on 1 and 2 characters.',
         note='S-PIPE/S-STR stubs incl. a normalizer model that gen.py validates against the real unicode-normalization crate on 7.6 M '
              'strings; directionality step = the crate\'s own bidi rule on the specification\'s string (its correctness is C09). In-crate hook.',
         design='4 (pipelines)', technique=T2 + 'pipelines over a closed witness alphabet, array-level oracle'),
     'C05': dict(
         text='OpaqueString prepare/enforce on strings over the closed 44-character alphabet against the RFC 8265 4.2 pipeline over character arrays '
-             '(FreeformClass, non-ASCII space mapping, NFC, non-empty); binding harness: NFC not NFKC, no case/width/directionality rule.',
+             '(FreeformClass, non-ASCII space mapping, NFC, non-empty); binding harness: NFC not NFKC, no case/width/directionality rule; six constant '
+             'multi-character witnesses.',
         note='S-PIPE/S-STR; quick 1 character, thorough 2.', design='4 (pipelines)', technique=T2 + 'pipelines over a closed witness alphabet'),
     'C06': dict(
-        text='Nickname prepare, and ONE and TWO applications of the enforcement rule function (stabilize replaced by "apply twice"; stabilize itself is '
-             'decided for every rule function by C13), against the statement (validate, space rule, NFKC, non-empty) over '
-             'character arrays; the alphabet contains characters whose NFKC form introduces spaces (U+00B4) or DISALLOWED code points (U+3131), so '
-             'second rounds and re-validation matter; a concrete two-round input runs the real loop; thorough runs the real loop symbolically and checks every accepted result is a fixed point.',
-        note='S-PIPE/S-STR; quick 1 character plus a concrete two-round input, thorough 2.', design='4 (pipelines)',
-        technique=T2 + 'pipelines over a closed witness alphabet, fixed-point oracle'),
+        text='Quick: Nickname.prepare on one symbolic character against the statement, and Nickname.enforce (real stabilize loop) on six constant '
+             'multi-character witnesses chosen so that a second round, re-validation in a later round (U+3131 -> DISALLOWED U+1100), space '
+             'collapsing around multi-byte characters and NFKC folding all matter. Thorough: one and two applications of the enforcement rule '
+             'function on symbolic strings (stabilize = apply twice; stabilize itself is decided for every rule function by C13), the real loop '
+             'on symbolic strings of 1-2 characters, and every accepted result checked to be a fixed point.',
+        note='S-PIPE/S-STR stubs incl. the normalizer model validated against the real unicode-normalization crate; strings over the closed 44-character alphabet.',
+        design='4 (pipelines)', technique=T2 + 'pipelines over a closed witness alphabet, constant witnesses, fixed-point oracle'),
     'C07': dict(
         text='compare of all four profiles with one symbolic operand (any string of at most 1 character over the alphabet) and one constant operand '
              '("" second, "a" first, a class-rejected character first): equals equality of the specification\'s canonical forms, first operand\'s '
